@@ -14,8 +14,8 @@
 (***************************************************************************)
 EXTENDS MCTree
 CONSTANTS WalkOk(_, _)       \* WalkOk(S, st): lets a family steer the walk on the current state
-VARIABLES pend, SR
-wvars == <<S, hist, devs, step, op, pend, SR>>
+VARIABLES pend, SR, cumdv    \* cumdv: deviations that shaped SR since it last coincided with S
+wvars == <<S, hist, devs, step, op, pend, SR, cumdv>>
 
 NoReal == [none |-> TRUE]
 WInit == /\ S \in States
@@ -25,6 +25,7 @@ WInit == /\ S \in States
          /\ op = [pre |-> StateFullJ(S)]
          /\ pend = <<>>
          /\ SR = S
+         /\ cumdv = {}
 
 \* what a client can observe of a server state
 Visible(s) == <<[i \in DOMAIN s.dbs |-> Live(s.dbs[i], s.now)],
@@ -42,14 +43,15 @@ PhaseA == /\ pend = <<>>
                       /\ pend' = IF OpenDev = {} THEN <<>> ELSE <<[st |-> st, r |-> res.r]>>
                       /\ devs' = IF OpenDev = {} THEN {} ELSE OpenDev
                       /\ SR' = IF OpenDev = {} THEN res.S ELSE SR
-          /\ UNCHANGED <<step, op>>
+          /\ UNCHANGED <<step, op, cumdv>>
 PhaseB == /\ pend # <<>>
           /\ LET res == StepOf(SR, pend[1].st)
                  same == res.r = pend[1].r /\ Visible(res.S) = Visible(S)
              IN  /\ hist' = [hist EXCEPT ![Len(hist)].real =
                               IF same THEN NoReal
-                              ELSE [r |-> res.r, post |-> StateFullJ(res.S), dv |-> res.dv, rel |-> res.rel, tol |-> res.tol]]
+                              ELSE [r |-> res.r, post |-> StateFullJ(res.S), dv |-> cumdv \cup res.dv, rel |-> res.rel, tol |-> res.tol]]
                  /\ SR' = IF same THEN res.S ELSE S
+                 /\ cumdv' = IF same THEN cumdv \cup res.dv ELSE {}
           /\ pend' = <<>>
           /\ devs' = {}
           /\ UNCHANGED <<S, step, op>>
@@ -57,7 +59,7 @@ PhaseB == /\ pend # <<>>
 \* invariants on every candidate successor of a simulation step, not only on the chosen one
 Finish == /\ pend = <<>> /\ Len(hist) = Depth /\ step = 0
           /\ step' = 1
-          /\ UNCHANGED <<S, hist, devs, op, pend, SR>>
+          /\ UNCHANGED <<S, hist, devs, op, pend, SR, cumdv>>
 WNext == PhaseA \/ PhaseB \/ Finish
 WSpec == WInit /\ [][WNext]_wvars
 AnyState(s, st) == TRUE
